@@ -28,6 +28,8 @@ class Objects:
     def call_opaque(self, ex, st, fv, args, kwargs, node):
         if fv.kind == "interp1d":
             return self.interp1d_call(ex, st, fv, args[0], node)
+        if fv.kind == "fn2":
+            return fv.get("uf")(to_z3(as_int(args[0])), to_z3(as_int(args[1])))
         if fv.kind == "fn":
             f = fv.get("uf")
             x = args[0]
@@ -78,6 +80,7 @@ def antiderivative_of(ctx, clo):
 
 
 LIBFUNCS = {
+    "scipy.stats.norm.cdf": "sp_normcdf",
     "scipy.integrate.quad": "sp_quad",
     "scipy.interpolate.splev": "sp_splev",
     "scipy.interpolate.splint": "sp_splint",
@@ -148,19 +151,39 @@ def _install():
 
     def b_sp_quad(self, ex, st, args, kwargs, node):
         libspec.trusted("scipy.integrate.quad(f, a, b)[0] = Q(b) - Q(a) for an antiderivative Q of the function it is "
-                        "passed (exact integral: quadrature error not modelled); f must be defined on [a, b]")
+                        "passed (exact integral: quadrature error not modelled); f is evaluated at interior points of (a, b) only")
         f, a, b = args[0], as_real(args[1]), as_real(args[2])
         # f is evaluated at points between a and b: its safety obligations at an arbitrary such point
         if ex.checking:
             zp = z3.Real(uid("quadpt"))
             h = st.fork()
-            h.assume(zor(zand(ex.cmp_le(a, zp), ex.cmp_le(zp, b)), zand(ex.cmp_le(b, zp), ex.cmp_le(zp, a))))
+            # Gauss-Kronrod nodes are interior points: f is needed on the open interval only
+            h.assume(zor(zand(ex.cmp_lt(a, zp), ex.cmp_lt(zp, b)), zand(ex.cmp_lt(b, zp), ex.cmp_lt(zp, a))))
             self.apply(ex, h, f, [zp], {}, node)
             for pc_at, cond, exc in h.pending:
                 ex.oblige(h, znot(cond) if not isinstance(cond, bool) else (not cond), "quad-integrand-raises[%s]" % exc, node)
         Q = antiderivative_of(self.ctx, f).get("uf")
         return (Q(to_z3(b)) - Q(to_z3(a)), z3.Real(uid("quaderr")))
 
+    def b_sp_normcdf(self, ex, st, args, kwargs, node):
+        libspec.trusted("scipy.stats.norm.cdf(x, loc=0, scale=sd): uninterpreted function normcdf(x, sd) with values in [0, 1]")
+        x = args[0]
+        loc = kwargs.get("loc", 0)
+        sd = as_real(kwargs.get("scale", 1))
+        if not (isinstance(loc, int) and loc == 0):
+            raise EngineError("norm.cdf with loc != 0 outside the subset")
+        f = self.ctx.uf("normcdf", R, R, R)
+        if not st.ghost.get("normcdf_range"):
+            st.ghost["normcdf_range"] = True
+            a, b = z3.Real(uid("a")), z3.Real(uid("b"))
+            from .values import BOUND
+            BOUND.add(a.decl().name()); BOUND.add(b.decl().name())
+            st.pc.append(z3.ForAll([a, b], z3.And(f(a, b) >= 0, f(a, b) <= 1), patterns=[f(a, b)]))
+        if isinstance(x, Seq):
+            return Seq(x.n, lambda i: f(to_z3(as_real(x.at(i))), to_z3(sd)), "array")
+        return f(to_z3(as_real(x)), to_z3(sd))
+
+    L.b_sp_normcdf = b_sp_normcdf
     L.b_sp_quad = b_sp_quad
     L.b_sp_splev = b_sp_splev
     L.b_sp_splint = b_sp_splint
